@@ -214,6 +214,23 @@ def chain_traces_1d(rng, quick):
                         except Exception as ex:
                             ev.append({"e": "Raise", "what": type(ex).__name__ + ": " + str(ex)[:80]})
                         traces.append({"tid": f"c{len(traces)}", "hdr": hdr, "ev": ev})
+                    # the inversion sampler with a small storage cap: draws beyond the stored prefix restart the
+                    # enumeration; the law must not depend on the history of such draws
+                    for cap in (2, 5):
+                        hdr = {"method": f"chain1d:INVERSION:cap{cap}", "W": W, "N": N, "slack": 0, "shape": [nl, nr, lvl]}
+                        ev = []
+                        try:
+                            grid = CTMCGrid(h=st * unit, origin_coordinate=origin, axes=[axis.copy()])
+                            smp = MarkovChainProcess(model=atomic.AtomLevyModel(atoms, sigma=0.0), method=SamplingMethod.INVERSION, grid=grid).sampling
+                            smp._max_storage = cap
+                            order = [rng.choice([N - 1, N - 2, N // 2, rng.randrange(N)]) for _ in range(12)]
+                            ev.append({"e": "Hist", "is": order, "ks": [idx(smp.sample_with_u(us[i])) for i in order]})
+                            ev.append({"e": "Sweep", "is": list(range(N)), "ks": [idx(smp.sample_with_u(u)) for u in us]})
+                            back = list(range(N - 1, -1, -1))
+                            ev.append({"e": "Sweep", "is": back, "ks": [idx(smp.sample_with_u(us[i])) for i in back]})
+                        except Exception as ex:
+                            ev.append({"e": "Raise", "what": type(ex).__name__ + ": " + str(ex)[:80]})
+                        traces.append({"tid": f"c{len(traces)}", "hdr": hdr, "ev": ev})
     finally:
         tm.random = real_random
     return traces
@@ -276,6 +293,20 @@ def chain_traces_nd(rng, quick):
                     scripted.queue = [us[i] for i in perm]
                     out = smp.sample(size=N)
                     ev.append({"e": "Sweep", "is": perm, "ks": [idx(v) for v in out]})
+                except Exception as ex:
+                    ev.append({"e": "Raise", "what": type(ex).__name__ + ": " + str(ex)[:80]})
+                traces.append({"tid": f"n{len(traces)}", "hdr": hdr, "ev": ev})
+            for cap in (4, 9):
+                hdr = {"method": f"chain{d}d:INVERSION:cap{cap}", "W": W, "N": N, "slack": 0, "shape": [d, nl, nr]}
+                ev = []
+                try:
+                    grid = CTMCGrid(h=st * atomic.UNIT, origin_coordinate=nl, axes=[axis.copy() for _ in range(d)])
+                    smp = MarkovChainLevyCopula(atomic.atom_copula_model(atoms, d), grid, SamplingMethod.INVERSION).sampling
+                    smp._max_storage = cap
+                    idx = lambda inc: index.get(tuple(int(v) for v in inc), 0)
+                    order = [rng.choice([N - 1, N - 2, N // 2, rng.randrange(N)]) for _ in range(12)]
+                    ev.append({"e": "Hist", "is": order, "ks": [idx(smp.sample_with_u(us[i])) for i in order]})
+                    ev.append({"e": "Sweep", "is": list(range(N)), "ks": [idx(smp.sample_with_u(u)) for u in us]})
                 except Exception as ex:
                     ev.append({"e": "Raise", "what": type(ex).__name__ + ": " + str(ex)[:80]})
                 traces.append({"tid": f"n{len(traces)}", "hdr": hdr, "ev": ev})
